@@ -140,10 +140,11 @@ def make_job(structs, lay, outdir):
         wrappers = []
         if not s.lifetime:
             sbytes = cases[0]["read_bytes"]
-            kind = {"()": "unit", "u8": "u8", "u64": "u64", "En": "en", "@": "struct"}
+            kind = {"()": "unit", "u8": "u8", "u64": "u64", "En": "en", "@": "struct", "Zs": "zst"}
             for w, (okt, errt) in J.WRAPPERS.items():
                 wl = lay["%s|%s" % (s.name, w)]
-                wrappers.append({"w": w, "flag_off": wl["flag"], "ok_kind": kind[okt], "err_kind": kind[errt],
+                # both arms zero-sized: the record is the flag alone, a single scalar that the export returns directly
+                wrappers.append({"w": w, "direct": wl["size"] == 1, "flag_off": wl["flag"], "ok_kind": kind[okt], "err_kind": kind[errt],
                                  "ok_hex": sbytes if okt == "@" else J.ARM_BYTES[okt].hex(), "err_hex": sbytes if errt == "@" else J.ARM_BYTES[errt].hex()})
         job["structs"].append({"name": s.name, "owner": s.owner, "lifetime": s.lifetime, "out": s.out, "size": l["size"], "align": l["align"], "single_scalar": "buffer" not in fl[0],
                                "fields": [{"name": n, "ft": ft_json(f)} for n, f in s.fields], "cases": cases, "wrappers": wrappers})
@@ -206,7 +207,7 @@ class _Norm:
         return self.rep.violation(key, witness, what)
 
 
-ARM_VALUE = {"u8": 0x7B, "u64": {"big": str(0x0102030405060708)}, "en": {"en": 5}, "unit": "unit"}
+ARM_VALUE = {"u8": 0x7B, "u64": {"big": str(0x0102030405060708)}, "en": {"en": 5}, "unit": "unit", "zst": "zst"}
 
 
 def judge_wrapped(rep, abi, s, lay, meta, res, stats, cls):
@@ -229,10 +230,15 @@ def judge_wrapped(rep, abi, s, lay, meta, res, stats, cls):
             rep.violation("C08|%s|wrapped|%s|export-not-called" % (abi, sig), base, "method returning %s around struct {%s} never calls its export" % (sig, cls))
             continue
         allocs = rec.get("allocs") or []
-        if not allocs or not rec.get("ptr_is_alloc"):
+        direct = wl["size"] == 1
+        if direct:
+            if allocs:
+                rep.violation("C08|%s|wrapped|%s|flag-only-record-uses-buffer" % (abi, sig), base, "method returning %s: the record is the flag alone and is returned directly, yet a receive buffer is allocated" % sig)
+                continue
+        elif not allocs or not rec.get("ptr_is_alloc"):
             rep.violation("C08|%s|wrapped|%s|no-receive-buffer" % (abi, sig), base, "method returning %s around struct {%s}: first argument is not a receive buffer" % (sig, cls))
             continue
-        a = allocs[0]
+        a = allocs[0] if allocs else {"size": 1 << 30, "align": 1 << 10}
         if a["size"] < wl["flag"] + 1:
             rep.violation("C08|%s|wrapped|%s|buffer-too-small" % (abi, sig), base,
                           "method returning %s around struct {%s}: receive buffer of %d bytes, Rust writes the flag at offset %d (record size %d)" % (sig, cls, a["size"], wl["flag"], wl["size"]))
@@ -242,7 +248,7 @@ def judge_wrapped(rep, abi, s, lay, meta, res, stats, cls):
                           "method returning %s around struct {%s}: receive buffer aligned to %d, Rust's record needs %d" % (sig, cls, a["align"], wl["align"]))
         flag = rec["flag"]
         arm = (okt if flag else errt)
-        kind = {"()": "unit", "u8": "u8", "u64": "u64", "En": "en", "@": "struct"}[arm]
+        kind = {"()": "unit", "u8": "u8", "u64": "u64", "En": "en", "@": "struct", "Zs": "zst"}[arm]
         want = want_struct if kind == "struct" else ARM_VALUE[kind]
         # how each arm surfaces in JS: Ok -> return value; Err(()) / None -> null; Err(E) -> exception with cause
         if flag or arm == "()":
